@@ -3,7 +3,7 @@
 (* every button byte 0..255: the decoded button, type and modifiers          *)
 (* re-encode to the same byte (the decoding loses nothing), and paste        *)
 (* bracketing marks exactly the keys between the brackets.                   *)
-EXTENDS Reports, TLC
+EXTENDS ReportsKeys, TLC
 VARIABLES pb, final
 Init == pb \in 0..255 /\ final \in {"M", "m"}
 Next == UNCHANGED <<pb, final>>
@@ -19,4 +19,25 @@ PasteMarks ==
       rs == <<k(1), [k |-> "pastestart"], k(2), k(3), [k |-> "pasteend"], k(4)>>
       ex == Expected(rs, FALSE, <<>>)
   IN /\ Len(ex) = 6 /\ ~ex[1].paste /\ ex[3].paste /\ ex[4].paste /\ ~ex[6].paste
+(* ReportsKeys: an ambiguous report is accepted under both readings and     *)
+(* under no third one; a reply that surfaces as a key is rejected; the       *)
+(* recorded "Alt moves to the next key" finding is diagnosed only when the   *)
+(* run differs by nothing else, and later keys are still judged.             *)
+KeysJudged ==
+  LET K(c, m, cls, opt) == [k |-> "key", code |-> c, mods |-> m, cls |-> cls, opt |-> opt]
+      G(c, m) == [t |-> "key", code |-> c, paste |-> FALSE, mods |-> m]
+      rs  == <<K(97, 0, "", FALSE), K(-1, -1, "escc0", FALSE), K(-1, -1, "c0", FALSE), K(98, 0, "", FALSE), K(99, 0, "", FALSE)>>
+      amb == <<K(97, 0, "", FALSE), K(-103, -1, "f3?", TRUE), [k |-> "reply"], K(98, 0, "", FALSE)>>
+  IN /\ Judge(<<G(97, 0), G(13, 0), G(13, 0), G(98, 0), G(99, 0)>>, rs).ok
+     /\ Judge(<<G(97, 0), G(13, 0), G(13, 0), G(98, 2), G(99, 0)>>, rs).class = "alt-carried-after-esc-c0"
+     /\ LET j == Judge(<<G(97, 0), G(13, 0), G(13, 0), G(98, 2), G(99, 2)>>, rs) IN ~j.ok /\ j.class = "" /\ j.at = 5
+     /\ LET j == Judge(<<G(97, 0), G(13, 0), G(13, 0), G(98, 2)>>, rs) IN ~j.ok /\ j.class = "" /\ j.at = 5
+     /\ LET j == Judge(<<G(97, 0), G(13, 0), G(13, 0), G(99, 0)>>, rs) IN ~j.ok /\ j.class = "" /\ j.at = 4
+     /\ LET j == Judge(<<G(97, 0)>>, rs) IN ~j.ok /\ j.class = "escc0" /\ j.at = 2
+     /\ ~Judge(<<G(97, 2), G(13, 0), G(13, 0), G(98, 0), G(99, 0)>>, rs).ok
+     /\ Judge(<<G(97, 0), G(-103, 1), G(98, 0)>>, amb).ok
+     /\ Judge(<<G(97, 0), G(98, 0)>>, amb).ok
+     /\ ~Judge(<<G(97, 0), G(5, 6), G(98, 0)>>, amb).ok
+     /\ ~Judge(<<G(97, 0), G(-103, 1), G(-103, 1), G(98, 0)>>, amb).ok
+     /\ ~Judge(<<G(97, 0), G(98, 0), G(5, 6)>>, amb).ok
 =============================================================================
